@@ -862,5 +862,43 @@ func Generate(tier string) []*Shape {
 			{Kind: "send", AmtVar: "p", Asset: "USD/2", Srcs: []*Source{mode(g, "a", ms[2])}, Dst: acc("z")},
 		}, nil))
 	}
+	// (7) @world ahead of an account inside a funding that is handed back (capped world
+	// in an ordered source, world branch of a portioned source, kept parts), followed by
+	// a statement that reads the account's balance again
+	capWorld := func(g *varGen) *Source {
+		return &Source{Kind: "max", CapVar: g.next("c"), Subs: []*Source{{Kind: "world"}}}
+	}
+	keptTail := func(g *varGen) *Dest {
+		return &Dest{Kind: "seq", CapVars: []string{g.next("d")}, Subs: []*Dest{acc("x"), kept()}}
+	}
+	{
+		g := &varGen{}
+		add(newShape("", []*Stmt{
+			{Kind: "send", AmtVar: "m", Asset: "USD/2", Srcs: []*Source{{Kind: "seq", Subs: []*Source{capWorld(g), {Kind: "acc", Acc: "a"}}}}, Dst: acc("x")},
+			{Kind: "sendall", Asset: "USD/2", Srcs: []*Source{{Kind: "acc", Acc: "a"}}, Dst: acc("y")},
+		}, nil))
+		g = &varGen{}
+		inner := &Source{Kind: "max", CapVar: g.next("c"), Subs: []*Source{{Kind: "seq", Subs: []*Source{capWorld(g), {Kind: "acc", Acc: "a"}}}}}
+		add(newShape("", []*Stmt{{Kind: "send", AmtVar: "m", Asset: "USD/2", Srcs: []*Source{{Kind: "seq", Subs: []*Source{inner, {Kind: "acc", Acc: "a"}, {Kind: "acc", Acc: "b"}}}}, Dst: acc("x")}}, nil))
+		for _, second := range []string{"sendall", "send"} {
+			g = &varGen{}
+			st2 := &Stmt{Kind: second, Asset: "USD/2", Srcs: []*Source{{Kind: "seq", Subs: []*Source{{Kind: "acc", Acc: "a"}, {Kind: "acc", Acc: "b"}}}}, Dst: acc("y")}
+			if second == "send" {
+				st2.AmtVar = "n"
+			} else {
+				st2.Srcs = []*Source{{Kind: "acc", Acc: "a"}}
+			}
+			add(newShape("", []*Stmt{
+				{Kind: "send", AmtVar: "m", Asset: "USD/2", SrcAllot: true, SrcPortions: []Portion{P(1, 2), P(1, 2)}, Srcs: []*Source{{Kind: "world"}, {Kind: "acc", Acc: "a"}}, Dst: keptTail(g)},
+				st2,
+			}, nil))
+			g = &varGen{}
+			st3 := *st2
+			add(newShape("", []*Stmt{
+				{Kind: "send", AmtVar: "m", Asset: "USD/2", SrcAllot: true, SrcPortions: []Portion{P(1, 2), P(1, 2)}, Srcs: []*Source{{Kind: "acc", Acc: "a"}, {Kind: "world"}}, Dst: keptTail(g)},
+				&st3,
+			}, nil))
+		}
+	}
 	return shapes
 }
